@@ -18,6 +18,8 @@ fn case_strategy(_t: Tier) -> BoxedStrategy<Case> {
             4 => prop::sample::select(vec!["", "a", "foo", "py312", "nb", "nb1", "x-nb1", "libnbcompat", "é", "1.0", "p5"]).prop_map(String::from),
             2 => vergen::tokens(5).prop_map(|t| t.concat().replace('-', "")),
             1 => "[a-z0-9.]{0,6}",
+            // a token of the library's own source (may contain '-', brackets, anything printable)
+            1 => crate::engine::dict::string_token(printable, "a"),
         ]
     };
     let rev = prop_oneof![
@@ -37,9 +39,16 @@ fn case_strategy(_t: Tier) -> BoxedStrategy<Case> {
         1 => part(),
         1 => prop::collection::vec(any::<char>(), 0..10).prop_map(|v| v.into_iter().collect::<String>()),
         1 => "[a-c1-2nb.-]{0,10}",
+        // a version of very many components in front of the revision
+        1 => (crate::engine::gen::interesting_len(1300), prop::sample::select(vec!["1.", "0.", "a", "1_", ".", "1a", "rc1."]), 0u32..12, prop::sample::select(vec!["pkg", "a-b", "é"]))
+            .prop_map(|(n, unit, r, base)| format!("{}-{}nb{}", base, unit.repeat(n), r)),
     ]
     .prop_map(|name| Case { name })
     .boxed()
+}
+
+fn printable(c: char) -> bool {
+    !c.is_control()
 }
 
 fn matches(pattern: &str, name: &str) -> Result<bool, String> {
